@@ -81,7 +81,10 @@ def evaluate(text, run, ticks=TICKS, files=None):
     from vp.flo.build import build_text, run_bounded
     from vp.flo import dump
     logdir = None
+    cwd = os.getcwd()
+    scratch = tempfile.mkdtemp(prefix="vpcwd", dir=_TMPROOT)    # a mis-read path must not litter the checkout
     try:
+        os.chdir(scratch)
         if metagen.LOGDIR in text or any(metagen.LOGDIR in t for t in (files or {}).values()):
             logdir = tempfile.mkdtemp(prefix="vplog", dir=_TMPROOT)
             text = text.replace(metagen.LOGDIR, logdir)
@@ -108,6 +111,8 @@ def evaluate(text, run, ticks=TICKS, files=None):
         res["run"] = rj
         return res
     finally:
+        os.chdir(cwd)
+        shutil.rmtree(scratch, ignore_errors=True)
         if logdir:
             shutil.rmtree(logdir, ignore_errors=True)
 
